@@ -167,8 +167,10 @@ CHECKS['C19'] = dict(
     technique='TLA+ spec Discover.tla (suggest_pattern over word shapes; the discover -> append -> rerun loop): TLC checks Closure, '
               'StrictlyShrinks and termination (<>(unknown = {}) under weak fairness) for the repaired protocol and refutes the pinned one; '
               'every description shape of the state space is concretised and pushed through the suggestion functions and '
-              'parse_merchants.match, and batches through the real tally discover / tally up',
-    text='Every description of up to 4 words over 8 word shapes; the suggested rule must load and match its own description; the real '
+              'parse_merchants.match, and batches through the real tally discover / tally up; Journey.tla (init -> configure sources -> '
+              'discover rounds, as `tally workflow` advises; progress and <>done under weak fairness) is simulated by TLC and each '
+              'behaviour replayed with the real CLI',
+    text='Every description of up to 4 words over 9 word shapes; the suggested rule must load and match its own description; the real '
          'command loop must leave nothing Unknown after one round.',
     note='word shapes with a handful of concrete spellings each; no field transforms in the budgets',
     design='§4 C19')
@@ -187,9 +189,13 @@ CHECKS['C11'] = dict(
     technique='TLA+ spec Pipeline.tla: tally up as the composition Totals(Classify(Parse(sources))) built from Rows!Parse, Engine!Classify and '
               'the bucket function; MC_Pipeline explores budgets by single-setting steps and TLC checks OtherSourcesUntouched / '
               'MissingIsolated / SupplementalNeverCounted / FlowsConserve; TLC -simulate walks are materialised as real budget directories and '
-              'run through the real `tally up`, the HTML data decoded and compared per transaction and per flow with Pipeline!Report',
+              'run through the real `tally up`, the HTML data decoded and compared per transaction and per flow with Pipeline!Report; '
+              'Config.tla specifies load_config (rule mode, rule file resolution, views, currency, year, output path, warnings) and '
+              '`tally diag`: all 2304 settings records of MC_Config are materialised and compared with the real load_config / diag; an '
+              'exhaustive TLC dump of two-source budgets with identical format strings (MC_Pipeline_pairs) is replayed completely',
     text='The composition is specified from the component specs; every budget on TLC-generated walks (each step one setting change) is run '
-         'through the real CLI in a fresh process and compared with the specified report and with its predecessor on the walk.',
+         'through the real CLI in a fresh process and compared with the specified report and with its predecessor on the walk; every '
+         'settings record of Config.tla is checked against the real loader.',
     note='fixed rule set and statement tables; budgets differ in settings; rule_mode applies to .rules files only',
     design='§4 C11')
 CHECKS['C16'] = dict(
